@@ -153,13 +153,35 @@ func (s model) lookup(mt string) (string, string) {
 	return "", ""
 }
 
-// checkState replays hist on a fresh registry and compares every query with the model.
-func checkState(hist []op, s model) (kind, what string) {
+// checkState replays hist on ONE fresh registry and compares every query with the model after
+// every prefix of the history, the empty one included: the registry has then answered (and
+// possibly failed) every query before each further registration, so a lookup result that is
+// remembered across registrations (a cache, a memoised "no match") shows up.
+func checkState(hist []op, final model) (kind, what string) {
 	rec := &recorder{}
 	m := minify.New()
-	for _, o := range hist {
-		apply(m, rec, o)
+	s := model{map[string]string{}, nil}
+	if k, w := queryAll(m, rec, s); k != "" {
+		return k, "before any registration: " + w
 	}
+	for i, o := range hist {
+		apply(m, rec, o)
+		s = s.apply(o)
+		if k, w := queryAll(m, rec, s); k != "" {
+			if i < len(hist)-1 {
+				w = fmt.Sprintf("after the first %d registrations: %s", i+1, w)
+			}
+			return k, w
+		}
+	}
+	if s.key() != final.key() {
+		return "internal-model", "model replay diverged"
+	}
+	return "", ""
+}
+
+// queryAll asks every query of the alphabet through Minify and Match.
+func queryAll(m *minify.M, rec *recorder, s model) (kind, what string) {
 	for _, q := range queries {
 		mt, wantParams := refSplit(q)
 		wantKey, wantStub := s.lookup(mt)
@@ -229,7 +251,7 @@ func histString(h []op) string {
 // Run executes C15.
 func Run(c *core.Check) {
 	depth := c.Pick(3, 4)
-	c.Rule = fmt.Sprintf("breadth-first search over all registration histories of length <=%d over %d operations (literal/func/regexp/command registrations with overlapping keys); states are deduplicated on the reference model's canonical form (literal map + ordered pattern list); every transition replays the whole history on a fresh real registry and asks all %d media-type queries through Minify and Match; non-trivial = state in which at least one query is served by a minifier", depth, len(ops), len(queries))
+	c.Rule = fmt.Sprintf("breadth-first search over all registration histories of length <=%d over %d operations (literal/func/regexp/command registrations with overlapping keys); states are deduplicated on the reference model's canonical form (literal map + ordered pattern list); every transition replays the whole history on a fresh real registry and asks all %d media-type queries through Minify and Match after every prefix of it (so every query has been answered, or refused, before each further registration); non-trivial = state in which at least one query is served by a minifier", depth, len(ops), len(queries))
 	c.Assumptions = []string{"reference model of M written from the doc comments of minify.go", "queries restricted to documented media-type forms"}
 	type node struct {
 		hist []op
@@ -266,7 +288,7 @@ func Run(c *core.Check) {
 			validated++
 			h := append(append([]op{}, j.n.hist...), j.o)
 			s := j.n.s.apply(j.o)
-			c.Count(uint64(2 * len(queries)))
+			c.Count(uint64(2 * len(queries) * (len(h) + 1)))
 			if results[i].kind != "" {
 				c.Fail(core.Failure{Family: "registry-bfs", Input: histString(h), Kind: results[i].kind, What: results[i].what, Order: uint64(transitions)})
 			}
